@@ -250,7 +250,7 @@ def shape_jobs(tier, tags, ub, timeout, quick_subset):
 
 def build_jobs(prop, tier, plan, tags=None, ub=None):
     """plan: list of (family, quick_subset or None)"""
-    timeout = 1500 if tier == 'thorough' else 420
+    timeout = 1500 if tier == 'thorough' else 900     # the jobs need 6-90 s on /repo; the cap matters only for refactored generator code or a loaded machine (seed C16-entry-created-before-body: 421 s was too tight)
     jobs = []
     for fam, sub in plan:
         jobs += FAMILIES[fam](tier, list(tags or [prop]), ub, timeout, sub if tier == 'quick' else None)
